@@ -598,6 +598,52 @@ def rule_numerals(cm, rep, rid):
                               'the compiled program does not load' % (L.describe(v[1]), w), h.func.loc())
 
 
+def rule_goal_iterators_unnamed(cm, rep, rid):
+    rep.rule(rid, 'in emitted code the iterator of a goal loop exists only as the operand of its ``for`` statement: no name, '
+                  'attribute or container refers to it, so that leaving the loop by break / return / an exception drops it and '
+                  'CPython finalises it at once (its bindings are undone there) - sample code trees are rendered from the templates '
+                  'and every loop and every use of a goal call is inspected')
+    ts = cm.renderer
+    where = ts.gen_cls.loc()
+    samples = [
+        [('Foreach', 'p', [('Yield',)])],
+        [('Foreach', 'p', [('Foreach', 'q', [('Yield',)])])],
+        [('Block', 'cutIf1', [('Foreach', 'p', [('Foreach', 'q', [('BreakBlock', 'cutIf1'), ('Yield',)])]), ('Foreach', 'r', [('Yield',)])])],
+        [('Foreach', 'a', [('Block', 'cutIf1', [('Foreach', 'p', [('Foreach', 'q', [('BreakBlock', 'cutIf1'), ('Yield',)])]), ('Yield',)]),
+                           ('Foreach', 'b', [('Yield',)])])],
+        [('Foreach', 'p', [('YieldTrue',), ('YieldBreak',)])],
+    ]
+    n = 0
+    for code in samples:
+        fn = Node('YPCodeFunction', name='t', args=[], body=rc.to_nodes(code))
+        try:
+            text = ts.render_node(fn)
+            tree = ast.parse(text)
+        except RenderError as e:
+            raise AnalysisError('sample code tree does not render: %s' % e)
+        except SyntaxError as e:
+            raise AnalysisError('sample code tree renders to text that does not parse: %s' % e.msg)
+        for x in ast.walk(tree):
+            if isinstance(x, ast.For):
+                n += 1
+                key = 'loop:%s' % norm(x.iter)[:40]
+                if isinstance(x.iter, (ast.Call, ast.List, ast.Tuple)):
+                    rep.ok(rid, key, 'iterates the goal expression directly', where)
+                else:
+                    rep.violation(rid, key, 'the emitted loop iterates %s, not the goal call itself: the iterator stays referenced after '
+                                  'the loop is left by break/return, so the bindings of an abandoned goal survive until the name is '
+                                  'rebound or the clause function ends' % norm(x.iter)[:30], where)
+            if isinstance(x, ast.Call) and is_name(x.func) and x.func.id in ('query', 'match_dynamic', 'unify'):
+                par = None
+                for p_ in ast.walk(tree):
+                    if any(c is x for c in ast.iter_child_nodes(p_)):
+                        par = p_
+                if not (isinstance(par, ast.For) and par.iter is x):
+                    rep.violation(rid, 'goal-call:%s' % norm(par)[:40], 'a goal iterator is created outside the ``for`` statement that '
+                                  'consumes it (%s): something else than the loop refers to it' % norm(par)[:40], where)
+    rep.minimum('emitted goal loops inspected', n, 8)
+
+
 def rule_nesting_bound(cm, rep, rid, limit=20):
     rep.rule(rid, 'clauses of any length either compile to text whose static block nesting stays within CPython\'s limit '
                   '(%d nested loop blocks) or are rejected by the emitter: chains of nested loops of depth 1..40 are rendered from '
